@@ -4,11 +4,15 @@ import (
 	"fmt"
 	"os"
 	"path/filepath"
+	"reflect"
 	"regexp"
+	"runtime"
 	"sort"
 	"strings"
 	"sync"
 	"time"
+
+	"go.starlark.net/starlark"
 
 	"verif/internal/driver"
 )
@@ -21,9 +25,41 @@ type raceLog struct {
 	off  int64
 }
 
+type raceFrame struct {
+	fn   string // function name as printed by the detector
+	file string // source file (line number stripped)
+}
+
+// inStarlark reports whether the frame's code belongs to go.starlark.net. A closure of the
+// library that the compiler inlined into a harness function carries the harness function's
+// name, so the source file decides as well.
+func (f raceFrame) inStarlark() bool {
+	return strings.HasPrefix(f.fn, "go.starlark.net/") || (starlarkRoot != "" && strings.HasPrefix(f.file, starlarkRoot+"/"))
+}
+
+func (f raceFrame) name() string {
+	if strings.HasPrefix(f.fn, "go.starlark.net/") {
+		return strings.TrimPrefix(f.fn, "go.starlark.net/")
+	}
+	if f.inStarlark() {
+		return "(inlined code of " + strings.TrimPrefix(f.file, starlarkRoot+"/") + ")"
+	}
+	return f.fn
+}
+
+// starlarkRoot is the directory of the go.starlark.net module this binary was built from.
+var starlarkRoot = func() string {
+	f := runtime.FuncForPC(reflect.ValueOf(starlark.Call).Pointer())
+	if f == nil {
+		return ""
+	}
+	file, _ := f.FileLine(f.Entry())
+	return filepath.Dir(filepath.Dir(file))
+}()
+
 type raceSite struct {
-	kind   string   // "read", "write", ...
-	frames []string // function names, innermost first
+	kind   string      // "read", "write", ...
+	frames []raceFrame // innermost first
 }
 
 type raceReport struct {
@@ -114,12 +150,23 @@ func parseReport(text string) raceReport {
 			cur = nil
 			continue
 		}
-		if cur != nil && strings.HasPrefix(line, "  ") && !strings.HasPrefix(line, "   ") {
+		if cur == nil {
+			continue
+		}
+		if strings.HasPrefix(line, "      ") { // "      /path/file.go:123 +0x44" belongs to the frame above
+			if n := len(cur.frames); n > 0 {
+				file := strings.TrimSpace(line)
+				if k := strings.LastIndex(file, ":"); k > 0 {
+					file = file[:k]
+				}
+				cur.frames[n-1].file = file
+			}
+		} else if strings.HasPrefix(line, "  ") {
 			fn := strings.TrimSpace(line)
 			if k := strings.LastIndex(fn, "("); k > 0 {
 				fn = fn[:k]
 			}
-			cur.frames = append(cur.frames, fn)
+			cur.frames = append(cur.frames, raceFrame{fn: fn})
 		}
 	}
 	return rep
@@ -129,8 +176,8 @@ func parseReport(text string) raceReport {
 func (s raceSite) starlarkFrames(n int) []string {
 	var out []string
 	for _, f := range s.frames {
-		if strings.HasPrefix(f, "go.starlark.net/") && len(out) < n {
-			out = append(out, strings.TrimPrefix(f, "go.starlark.net/"))
+		if f.inStarlark() && len(out) < n {
+			out = append(out, f.name())
 		}
 	}
 	return out
@@ -141,7 +188,7 @@ func (s raceSite) label() (string, bool) {
 		return s.kind + " " + fr[0], true
 	}
 	if len(s.frames) > 0 {
-		return s.kind + " (outside starlark) " + s.frames[0], false
+		return s.kind + " (outside starlark) " + s.frames[0].fn, false
 	}
 	return s.kind + " (stack not restored)", false
 }
